@@ -179,26 +179,22 @@ macro_rules! from_radix_shape {
         }
     };
 }
+// radix outside the allowed range panics (concrete out-of-range radices: a symbolic radix keeps the whole parser in the formula)
 macro_rules! radix_range_mp {
-    ($name:ident, $which:expr) => {
+    ($name:ident, $which:expr, $r:expr) => {
         #[kani::proof]
         #[kani::unwind(12)]
         fn $name() {
-            let r: u32 = kani::any();
+            let r: u32 = $r;
             if $which == 0 {
-                kani::assume(r < 2 || r > 36);
                 let _ = BigUint::from_str_radix("1", r);
             } else if $which == 1 {
-                kani::assume(r < 2 || r > 256);
                 let _ = BigUint::from_radix_be(&[1], r);
             } else if $which == 2 {
-                kani::assume(r < 2 || r > 256);
                 let _ = BigUint::from_radix_le(&[1], r);
             } else if $which == 3 {
-                kani::assume(r < 2 || r > 36);
                 let _ = vc::mk_from(&[5]).to_str_radix(r);
             } else {
-                kani::assume(r < 2 || r > 36);
                 let _ = mkint(true, &[5]).to_str_radix(r);
             }
             kani::assert(false, "VERIF_SURVIVED radix outside the allowed range accepted");
@@ -206,359 +202,13 @@ macro_rules! radix_range_mp {
     };
 }
 
-// one fully symbolic ASCII byte at position K of a concrete template (all other bytes as written)
-macro_rules! parse_hole_shape {
-    ($name:ident, $n:expr, $radix:expr, $tpl:expr, $k:expr, $int:expr) => {
-        #[kani::proof]
-        #[kani::unwind(12)]
-        #[kani::stub(alloc::vec::Vec::with_capacity, vc::vec_with_capacity_ignored)]
-        #[kani::stub(alloc::vec::Vec::shrink_to_fit, vc::noop_shrink)]
-        fn $name() {
-            let mut b: [u8; $n] = *$tpl;
-            let c: u8 = kani::any();
-            kani::assume(c < 128);
-            b[$k] = c;
-            let s = unsafe { core::str::from_utf8_unchecked(&b) };
-            if !$int {
-                let got = BigUint::from_str_radix(s, $radix);
-                match ref_parse(&b, $radix, false) {
-                    Some((_, v)) => match got {
-                        Ok(u) => kani::assert(vc::is_canonical(&u) && vc::eq_window(vc::digits(&u), &[v]), "VERIF BigUint::from_str_radix wrong value"),
-                        Err(_) => kani::assert(false, "VERIF BigUint::from_str_radix rejected a well-formed string"),
-                    },
-                    None => kani::assert(got.is_err(), "VERIF BigUint::from_str_radix accepted an ill-formed string"),
-                }
-            } else {
-                let goti = BigInt::from_str_radix(s, $radix);
-                match ref_parse(&b, $radix, true) {
-                    Some((neg, v)) => match goti {
-                        Ok(x) => kani::assert(int_canonical(&x) && vc::eq_window(mag(&x), &[v]) && (is_neg(&x) == (neg && v != 0)), "VERIF BigInt::from_str_radix wrong value/sign"),
-                        Err(_) => kani::assert(false, "VERIF BigInt::from_str_radix rejected a well-formed string"),
-                    },
-                    None => kani::assert(goti.is_err(), "VERIF BigInt::from_str_radix accepted an ill-formed string"),
-                }
-            }
-        }
-    };
-}
-parse_hole_shape!(c06_x_hole_a, 2, 10, b"12", 0, false);
-parse_hole_shape!(c06_x_hole_b, 1, 10, b"1", 0, false);
-parse_hole_shape!(c06_x_hole_c, 3, 10, b"123", 1, false);
-parse_hole_shape!(c06_x_hole_d, 3, 10, b"-23", 1, true);
-
 // BEGIN GENERATED c06_parse
-parse_shape!(c06_q_parse_uint_r10_empty, 0, 10, b"", false);
-parse_shape!(c06_q_parse_int_r10_empty, 0, 10, b"", true);
-parse_shape!(c06_q_parse_uint_r16_empty, 0, 16, b"", false);
-parse_shape!(c06_t_parse_int_r16_empty, 0, 16, b"", true);
-parse_shape!(c06_t_parse_uint_r2_empty, 0, 2, b"", false);
-parse_shape!(c06_t_parse_int_r2_empty, 0, 2, b"", true);
-parse_shape!(c06_t_parse_uint_r36_empty, 0, 36, b"", false);
-parse_shape!(c06_t_parse_int_r36_empty, 0, 36, b"", true);
-parse_shape!(c06_q_parse_uint_r10_p, 1, 10, b"p", false);
-parse_shape!(c06_q_parse_uint_r10_u, 1, 10, b"u", false);
-parse_shape!(c06_q_parse_uint_r10_x, 1, 10, b"x", false);
-parse_shape!(c06_q_parse_int_r10_p, 1, 10, b"p", true);
-parse_shape!(c06_q_parse_int_r10_u, 1, 10, b"u", true);
-parse_shape!(c06_q_parse_int_r10_x, 1, 10, b"x", true);
-parse_shape!(c06_q_parse_int_r10_m, 1, 10, b"m", true);
-parse_shape!(c06_q_parse_uint_r16_p, 1, 16, b"p", false);
-parse_shape!(c06_q_parse_uint_r16_u, 1, 16, b"u", false);
-parse_shape!(c06_q_parse_uint_r16_x, 1, 16, b"x", false);
-parse_shape!(c06_t_parse_int_r16_m, 1, 16, b"m", true);
-parse_shape!(c06_t_parse_uint_r2_p, 1, 2, b"p", false);
-parse_shape!(c06_t_parse_uint_r2_u, 1, 2, b"u", false);
-parse_shape!(c06_t_parse_uint_r2_x, 1, 2, b"x", false);
-parse_shape!(c06_t_parse_int_r2_m, 1, 2, b"m", true);
-parse_shape!(c06_t_parse_uint_r36_p, 1, 36, b"p", false);
-parse_shape!(c06_t_parse_uint_r36_u, 1, 36, b"u", false);
-parse_shape!(c06_t_parse_uint_r36_x, 1, 36, b"x", false);
-parse_shape!(c06_t_parse_int_r36_m, 1, 36, b"m", true);
-parse_shape!(c06_q_parse_uint_r10_pu, 2, 10, b"pu", false);
-parse_shape!(c06_q_parse_uint_r10_px, 2, 10, b"px", false);
-parse_shape!(c06_q_parse_uint_r10_uu, 2, 10, b"uu", false);
-parse_shape!(c06_q_parse_uint_r10_ux, 2, 10, b"ux", false);
-parse_shape!(c06_q_parse_uint_r10_xu, 2, 10, b"xu", false);
-parse_shape!(c06_q_parse_uint_r10_xx, 2, 10, b"xx", false);
-parse_shape!(c06_q_parse_int_r10_pu, 2, 10, b"pu", true);
-parse_shape!(c06_q_parse_int_r10_px, 2, 10, b"px", true);
-parse_shape!(c06_q_parse_int_r10_uu, 2, 10, b"uu", true);
-parse_shape!(c06_q_parse_int_r10_ux, 2, 10, b"ux", true);
-parse_shape!(c06_q_parse_int_r10_xu, 2, 10, b"xu", true);
-parse_shape!(c06_q_parse_int_r10_xx, 2, 10, b"xx", true);
-parse_shape!(c06_q_parse_int_r10_mu, 2, 10, b"mu", true);
-parse_shape!(c06_q_parse_int_r10_mx, 2, 10, b"mx", true);
-parse_shape!(c06_q_parse_uint_r16_pu, 2, 16, b"pu", false);
-parse_shape!(c06_q_parse_uint_r16_px, 2, 16, b"px", false);
-parse_shape!(c06_q_parse_uint_r16_uu, 2, 16, b"uu", false);
-parse_shape!(c06_q_parse_uint_r16_ux, 2, 16, b"ux", false);
-parse_shape!(c06_q_parse_uint_r16_xu, 2, 16, b"xu", false);
-parse_shape!(c06_q_parse_uint_r16_xx, 2, 16, b"xx", false);
-parse_shape!(c06_t_parse_int_r16_mu, 2, 16, b"mu", true);
-parse_shape!(c06_t_parse_int_r16_mx, 2, 16, b"mx", true);
-parse_shape!(c06_t_parse_uint_r2_pu, 2, 2, b"pu", false);
-parse_shape!(c06_q_parse_uint_r2_px, 2, 2, b"px", false);
-parse_shape!(c06_t_parse_uint_r2_uu, 2, 2, b"uu", false);
-parse_shape!(c06_t_parse_uint_r2_ux, 2, 2, b"ux", false);
-parse_shape!(c06_t_parse_uint_r2_xu, 2, 2, b"xu", false);
-parse_shape!(c06_q_parse_uint_r2_xx, 2, 2, b"xx", false);
-parse_shape!(c06_t_parse_int_r2_mu, 2, 2, b"mu", true);
-parse_shape!(c06_q_parse_int_r2_mx, 2, 2, b"mx", true);
-parse_shape!(c06_t_parse_uint_r36_pu, 2, 36, b"pu", false);
-parse_shape!(c06_q_parse_uint_r36_px, 2, 36, b"px", false);
-parse_shape!(c06_t_parse_uint_r36_uu, 2, 36, b"uu", false);
-parse_shape!(c06_t_parse_uint_r36_ux, 2, 36, b"ux", false);
-parse_shape!(c06_t_parse_uint_r36_xu, 2, 36, b"xu", false);
-parse_shape!(c06_q_parse_uint_r36_xx, 2, 36, b"xx", false);
-parse_shape!(c06_t_parse_int_r36_mu, 2, 36, b"mu", true);
-parse_shape!(c06_q_parse_int_r36_mx, 2, 36, b"mx", true);
-parse_shape!(c06_t_parse_uint_r8_pu, 2, 8, b"pu", false);
-parse_shape!(c06_t_parse_uint_r8_px, 2, 8, b"px", false);
-parse_shape!(c06_t_parse_uint_r8_uu, 2, 8, b"uu", false);
-parse_shape!(c06_t_parse_uint_r8_ux, 2, 8, b"ux", false);
-parse_shape!(c06_t_parse_uint_r8_xu, 2, 8, b"xu", false);
-parse_shape!(c06_t_parse_uint_r8_xx, 2, 8, b"xx", false);
-parse_shape!(c06_t_parse_int_r8_mu, 2, 8, b"mu", true);
-parse_shape!(c06_t_parse_int_r8_mx, 2, 8, b"mx", true);
-parse_shape!(c06_t_parse_uint_r3_pu, 2, 3, b"pu", false);
-parse_shape!(c06_t_parse_uint_r3_px, 2, 3, b"px", false);
-parse_shape!(c06_t_parse_uint_r3_uu, 2, 3, b"uu", false);
-parse_shape!(c06_t_parse_uint_r3_ux, 2, 3, b"ux", false);
-parse_shape!(c06_t_parse_uint_r3_xu, 2, 3, b"xu", false);
-parse_shape!(c06_t_parse_uint_r3_xx, 2, 3, b"xx", false);
-parse_shape!(c06_t_parse_int_r3_mu, 2, 3, b"mu", true);
-parse_shape!(c06_t_parse_int_r3_mx, 2, 3, b"mx", true);
-parse_shape!(c06_q_parse_uint_r10_puu, 3, 10, b"puu", false);
-parse_shape!(c06_q_parse_uint_r10_pux, 3, 10, b"pux", false);
-parse_shape!(c06_q_parse_uint_r10_pxu, 3, 10, b"pxu", false);
-parse_shape!(c06_q_parse_uint_r10_pxx, 3, 10, b"pxx", false);
-parse_shape!(c06_q_parse_uint_r10_uuu, 3, 10, b"uuu", false);
-parse_shape!(c06_q_parse_uint_r10_uux, 3, 10, b"uux", false);
-parse_shape!(c06_q_parse_uint_r10_uxu, 3, 10, b"uxu", false);
-parse_shape!(c06_q_parse_uint_r10_uxx, 3, 10, b"uxx", false);
-parse_shape!(c06_q_parse_uint_r10_xuu, 3, 10, b"xuu", false);
-parse_shape!(c06_q_parse_uint_r10_xux, 3, 10, b"xux", false);
-parse_shape!(c06_q_parse_uint_r10_xxu, 3, 10, b"xxu", false);
-parse_shape!(c06_q_parse_uint_r10_xxx, 3, 10, b"xxx", false);
-parse_shape!(c06_q_parse_int_r10_puu, 3, 10, b"puu", true);
-parse_shape!(c06_q_parse_int_r10_pux, 3, 10, b"pux", true);
-parse_shape!(c06_q_parse_int_r10_pxu, 3, 10, b"pxu", true);
-parse_shape!(c06_q_parse_int_r10_pxx, 3, 10, b"pxx", true);
-parse_shape!(c06_q_parse_int_r10_uuu, 3, 10, b"uuu", true);
-parse_shape!(c06_q_parse_int_r10_uux, 3, 10, b"uux", true);
-parse_shape!(c06_q_parse_int_r10_uxu, 3, 10, b"uxu", true);
-parse_shape!(c06_q_parse_int_r10_uxx, 3, 10, b"uxx", true);
-parse_shape!(c06_q_parse_int_r10_xuu, 3, 10, b"xuu", true);
-parse_shape!(c06_q_parse_int_r10_xux, 3, 10, b"xux", true);
-parse_shape!(c06_q_parse_int_r10_xxu, 3, 10, b"xxu", true);
-parse_shape!(c06_q_parse_int_r10_xxx, 3, 10, b"xxx", true);
-parse_shape!(c06_q_parse_int_r10_muu, 3, 10, b"muu", true);
-parse_shape!(c06_q_parse_int_r10_mux, 3, 10, b"mux", true);
-parse_shape!(c06_q_parse_int_r10_mxu, 3, 10, b"mxu", true);
-parse_shape!(c06_q_parse_int_r10_mxx, 3, 10, b"mxx", true);
-parse_shape!(c06_t_parse_uint_r16_puu, 3, 16, b"puu", false);
-parse_shape!(c06_t_parse_uint_r16_pux, 3, 16, b"pux", false);
-parse_shape!(c06_t_parse_uint_r16_pxu, 3, 16, b"pxu", false);
-parse_shape!(c06_t_parse_uint_r16_pxx, 3, 16, b"pxx", false);
-parse_shape!(c06_t_parse_uint_r16_uuu, 3, 16, b"uuu", false);
-parse_shape!(c06_t_parse_uint_r16_uux, 3, 16, b"uux", false);
-parse_shape!(c06_t_parse_uint_r16_uxu, 3, 16, b"uxu", false);
-parse_shape!(c06_t_parse_uint_r16_uxx, 3, 16, b"uxx", false);
-parse_shape!(c06_t_parse_uint_r16_xuu, 3, 16, b"xuu", false);
-parse_shape!(c06_t_parse_uint_r16_xux, 3, 16, b"xux", false);
-parse_shape!(c06_t_parse_uint_r16_xxu, 3, 16, b"xxu", false);
-parse_shape!(c06_t_parse_uint_r16_xxx, 3, 16, b"xxx", false);
-parse_shape!(c06_t_parse_int_r16_muu, 3, 16, b"muu", true);
-parse_shape!(c06_t_parse_int_r16_mux, 3, 16, b"mux", true);
-parse_shape!(c06_t_parse_int_r16_mxu, 3, 16, b"mxu", true);
-parse_shape!(c06_t_parse_int_r16_mxx, 3, 16, b"mxx", true);
-parse_shape!(c06_t_parse_uint_r2_puu, 3, 2, b"puu", false);
-parse_shape!(c06_t_parse_uint_r2_pux, 3, 2, b"pux", false);
-parse_shape!(c06_t_parse_uint_r2_pxu, 3, 2, b"pxu", false);
-parse_shape!(c06_t_parse_uint_r2_pxx, 3, 2, b"pxx", false);
-parse_shape!(c06_t_parse_uint_r2_uuu, 3, 2, b"uuu", false);
-parse_shape!(c06_t_parse_uint_r2_uux, 3, 2, b"uux", false);
-parse_shape!(c06_t_parse_uint_r2_uxu, 3, 2, b"uxu", false);
-parse_shape!(c06_t_parse_uint_r2_uxx, 3, 2, b"uxx", false);
-parse_shape!(c06_t_parse_uint_r2_xuu, 3, 2, b"xuu", false);
-parse_shape!(c06_t_parse_uint_r2_xux, 3, 2, b"xux", false);
-parse_shape!(c06_t_parse_uint_r2_xxu, 3, 2, b"xxu", false);
-parse_shape!(c06_t_parse_uint_r2_xxx, 3, 2, b"xxx", false);
-parse_shape!(c06_t_parse_int_r2_muu, 3, 2, b"muu", true);
-parse_shape!(c06_t_parse_int_r2_mux, 3, 2, b"mux", true);
-parse_shape!(c06_t_parse_int_r2_mxu, 3, 2, b"mxu", true);
-parse_shape!(c06_t_parse_int_r2_mxx, 3, 2, b"mxx", true);
-parse_shape!(c06_t_parse_uint_r36_puu, 3, 36, b"puu", false);
-parse_shape!(c06_t_parse_uint_r36_pux, 3, 36, b"pux", false);
-parse_shape!(c06_t_parse_uint_r36_pxu, 3, 36, b"pxu", false);
-parse_shape!(c06_t_parse_uint_r36_pxx, 3, 36, b"pxx", false);
-parse_shape!(c06_t_parse_uint_r36_uuu, 3, 36, b"uuu", false);
-parse_shape!(c06_t_parse_uint_r36_uux, 3, 36, b"uux", false);
-parse_shape!(c06_t_parse_uint_r36_uxu, 3, 36, b"uxu", false);
-parse_shape!(c06_t_parse_uint_r36_uxx, 3, 36, b"uxx", false);
-parse_shape!(c06_t_parse_uint_r36_xuu, 3, 36, b"xuu", false);
-parse_shape!(c06_t_parse_uint_r36_xux, 3, 36, b"xux", false);
-parse_shape!(c06_t_parse_uint_r36_xxu, 3, 36, b"xxu", false);
-parse_shape!(c06_t_parse_uint_r36_xxx, 3, 36, b"xxx", false);
-parse_shape!(c06_t_parse_int_r36_muu, 3, 36, b"muu", true);
-parse_shape!(c06_t_parse_int_r36_mux, 3, 36, b"mux", true);
-parse_shape!(c06_t_parse_int_r36_mxu, 3, 36, b"mxu", true);
-parse_shape!(c06_t_parse_int_r36_mxx, 3, 36, b"mxx", true);
-parse_shape!(c06_t_parse_uint_r10_puuu, 4, 10, b"puuu", false);
-parse_shape!(c06_t_parse_uint_r10_puux, 4, 10, b"puux", false);
-parse_shape!(c06_t_parse_uint_r10_puxu, 4, 10, b"puxu", false);
-parse_shape!(c06_t_parse_uint_r10_puxx, 4, 10, b"puxx", false);
-parse_shape!(c06_t_parse_uint_r10_pxuu, 4, 10, b"pxuu", false);
-parse_shape!(c06_t_parse_uint_r10_pxux, 4, 10, b"pxux", false);
-parse_shape!(c06_t_parse_uint_r10_pxxu, 4, 10, b"pxxu", false);
-parse_shape!(c06_t_parse_uint_r10_pxxx, 4, 10, b"pxxx", false);
-parse_shape!(c06_t_parse_uint_r10_uuuu, 4, 10, b"uuuu", false);
-parse_shape!(c06_t_parse_uint_r10_uuux, 4, 10, b"uuux", false);
-parse_shape!(c06_t_parse_uint_r10_uuxu, 4, 10, b"uuxu", false);
-parse_shape!(c06_t_parse_uint_r10_uuxx, 4, 10, b"uuxx", false);
-parse_shape!(c06_t_parse_uint_r10_uxuu, 4, 10, b"uxuu", false);
-parse_shape!(c06_t_parse_uint_r10_uxux, 4, 10, b"uxux", false);
-parse_shape!(c06_t_parse_uint_r10_uxxu, 4, 10, b"uxxu", false);
-parse_shape!(c06_t_parse_uint_r10_uxxx, 4, 10, b"uxxx", false);
-parse_shape!(c06_t_parse_uint_r10_xuuu, 4, 10, b"xuuu", false);
-parse_shape!(c06_t_parse_uint_r10_xuux, 4, 10, b"xuux", false);
-parse_shape!(c06_t_parse_uint_r10_xuxu, 4, 10, b"xuxu", false);
-parse_shape!(c06_t_parse_uint_r10_xuxx, 4, 10, b"xuxx", false);
-parse_shape!(c06_t_parse_uint_r10_xxuu, 4, 10, b"xxuu", false);
-parse_shape!(c06_t_parse_uint_r10_xxux, 4, 10, b"xxux", false);
-parse_shape!(c06_t_parse_uint_r10_xxxu, 4, 10, b"xxxu", false);
-parse_shape!(c06_t_parse_uint_r10_xxxx, 4, 10, b"xxxx", false);
-parse_shape!(c06_t_parse_int_r10_puuu, 4, 10, b"puuu", true);
-parse_shape!(c06_t_parse_int_r10_puux, 4, 10, b"puux", true);
-parse_shape!(c06_t_parse_int_r10_puxu, 4, 10, b"puxu", true);
-parse_shape!(c06_t_parse_int_r10_puxx, 4, 10, b"puxx", true);
-parse_shape!(c06_t_parse_int_r10_pxuu, 4, 10, b"pxuu", true);
-parse_shape!(c06_t_parse_int_r10_pxux, 4, 10, b"pxux", true);
-parse_shape!(c06_t_parse_int_r10_pxxu, 4, 10, b"pxxu", true);
-parse_shape!(c06_t_parse_int_r10_pxxx, 4, 10, b"pxxx", true);
-parse_shape!(c06_t_parse_int_r10_uuuu, 4, 10, b"uuuu", true);
-parse_shape!(c06_t_parse_int_r10_uuux, 4, 10, b"uuux", true);
-parse_shape!(c06_t_parse_int_r10_uuxu, 4, 10, b"uuxu", true);
-parse_shape!(c06_t_parse_int_r10_uuxx, 4, 10, b"uuxx", true);
-parse_shape!(c06_t_parse_int_r10_uxuu, 4, 10, b"uxuu", true);
-parse_shape!(c06_t_parse_int_r10_uxux, 4, 10, b"uxux", true);
-parse_shape!(c06_t_parse_int_r10_uxxu, 4, 10, b"uxxu", true);
-parse_shape!(c06_t_parse_int_r10_uxxx, 4, 10, b"uxxx", true);
-parse_shape!(c06_t_parse_int_r10_xuuu, 4, 10, b"xuuu", true);
-parse_shape!(c06_t_parse_int_r10_xuux, 4, 10, b"xuux", true);
-parse_shape!(c06_t_parse_int_r10_xuxu, 4, 10, b"xuxu", true);
-parse_shape!(c06_t_parse_int_r10_xuxx, 4, 10, b"xuxx", true);
-parse_shape!(c06_t_parse_int_r10_xxuu, 4, 10, b"xxuu", true);
-parse_shape!(c06_t_parse_int_r10_xxux, 4, 10, b"xxux", true);
-parse_shape!(c06_t_parse_int_r10_xxxu, 4, 10, b"xxxu", true);
-parse_shape!(c06_t_parse_int_r10_xxxx, 4, 10, b"xxxx", true);
-parse_shape!(c06_t_parse_int_r10_muuu, 4, 10, b"muuu", true);
-parse_shape!(c06_t_parse_int_r10_muux, 4, 10, b"muux", true);
-parse_shape!(c06_t_parse_int_r10_muxu, 4, 10, b"muxu", true);
-parse_shape!(c06_t_parse_int_r10_muxx, 4, 10, b"muxx", true);
-parse_shape!(c06_t_parse_int_r10_mxuu, 4, 10, b"mxuu", true);
-parse_shape!(c06_t_parse_int_r10_mxux, 4, 10, b"mxux", true);
-parse_shape!(c06_t_parse_int_r10_mxxu, 4, 10, b"mxxu", true);
-parse_shape!(c06_t_parse_int_r10_mxxx, 4, 10, b"mxxx", true);
-parse_shape!(c06_t_parse_uint_r16_puuu, 4, 16, b"puuu", false);
-parse_shape!(c06_t_parse_uint_r16_puux, 4, 16, b"puux", false);
-parse_shape!(c06_t_parse_uint_r16_puxu, 4, 16, b"puxu", false);
-parse_shape!(c06_t_parse_uint_r16_puxx, 4, 16, b"puxx", false);
-parse_shape!(c06_t_parse_uint_r16_pxuu, 4, 16, b"pxuu", false);
-parse_shape!(c06_t_parse_uint_r16_pxux, 4, 16, b"pxux", false);
-parse_shape!(c06_t_parse_uint_r16_pxxu, 4, 16, b"pxxu", false);
-parse_shape!(c06_t_parse_uint_r16_pxxx, 4, 16, b"pxxx", false);
-parse_shape!(c06_t_parse_uint_r16_uuuu, 4, 16, b"uuuu", false);
-parse_shape!(c06_t_parse_uint_r16_uuux, 4, 16, b"uuux", false);
-parse_shape!(c06_t_parse_uint_r16_uuxu, 4, 16, b"uuxu", false);
-parse_shape!(c06_t_parse_uint_r16_uuxx, 4, 16, b"uuxx", false);
-parse_shape!(c06_t_parse_uint_r16_uxuu, 4, 16, b"uxuu", false);
-parse_shape!(c06_t_parse_uint_r16_uxux, 4, 16, b"uxux", false);
-parse_shape!(c06_t_parse_uint_r16_uxxu, 4, 16, b"uxxu", false);
-parse_shape!(c06_t_parse_uint_r16_uxxx, 4, 16, b"uxxx", false);
-parse_shape!(c06_t_parse_uint_r16_xuuu, 4, 16, b"xuuu", false);
-parse_shape!(c06_t_parse_uint_r16_xuux, 4, 16, b"xuux", false);
-parse_shape!(c06_t_parse_uint_r16_xuxu, 4, 16, b"xuxu", false);
-parse_shape!(c06_t_parse_uint_r16_xuxx, 4, 16, b"xuxx", false);
-parse_shape!(c06_t_parse_uint_r16_xxuu, 4, 16, b"xxuu", false);
-parse_shape!(c06_t_parse_uint_r16_xxux, 4, 16, b"xxux", false);
-parse_shape!(c06_t_parse_uint_r16_xxxu, 4, 16, b"xxxu", false);
-parse_shape!(c06_t_parse_uint_r16_xxxx, 4, 16, b"xxxx", false);
-parse_shape!(c06_t_parse_int_r16_muuu, 4, 16, b"muuu", true);
-parse_shape!(c06_t_parse_int_r16_muux, 4, 16, b"muux", true);
-parse_shape!(c06_t_parse_int_r16_muxu, 4, 16, b"muxu", true);
-parse_shape!(c06_t_parse_int_r16_muxx, 4, 16, b"muxx", true);
-parse_shape!(c06_t_parse_int_r16_mxuu, 4, 16, b"mxuu", true);
-parse_shape!(c06_t_parse_int_r16_mxux, 4, 16, b"mxux", true);
-parse_shape!(c06_t_parse_int_r16_mxxu, 4, 16, b"mxxu", true);
-parse_shape!(c06_t_parse_int_r16_mxxx, 4, 16, b"mxxx", true);
-parse_shape!(c06_t_parse_uint_r2_puuu, 4, 2, b"puuu", false);
-parse_shape!(c06_t_parse_uint_r2_puux, 4, 2, b"puux", false);
-parse_shape!(c06_t_parse_uint_r2_puxu, 4, 2, b"puxu", false);
-parse_shape!(c06_t_parse_uint_r2_puxx, 4, 2, b"puxx", false);
-parse_shape!(c06_t_parse_uint_r2_pxuu, 4, 2, b"pxuu", false);
-parse_shape!(c06_t_parse_uint_r2_pxux, 4, 2, b"pxux", false);
-parse_shape!(c06_t_parse_uint_r2_pxxu, 4, 2, b"pxxu", false);
-parse_shape!(c06_t_parse_uint_r2_pxxx, 4, 2, b"pxxx", false);
-parse_shape!(c06_t_parse_uint_r2_uuuu, 4, 2, b"uuuu", false);
-parse_shape!(c06_t_parse_uint_r2_uuux, 4, 2, b"uuux", false);
-parse_shape!(c06_t_parse_uint_r2_uuxu, 4, 2, b"uuxu", false);
-parse_shape!(c06_t_parse_uint_r2_uuxx, 4, 2, b"uuxx", false);
-parse_shape!(c06_t_parse_uint_r2_uxuu, 4, 2, b"uxuu", false);
-parse_shape!(c06_t_parse_uint_r2_uxux, 4, 2, b"uxux", false);
-parse_shape!(c06_t_parse_uint_r2_uxxu, 4, 2, b"uxxu", false);
-parse_shape!(c06_t_parse_uint_r2_uxxx, 4, 2, b"uxxx", false);
-parse_shape!(c06_t_parse_uint_r2_xuuu, 4, 2, b"xuuu", false);
-parse_shape!(c06_t_parse_uint_r2_xuux, 4, 2, b"xuux", false);
-parse_shape!(c06_t_parse_uint_r2_xuxu, 4, 2, b"xuxu", false);
-parse_shape!(c06_t_parse_uint_r2_xuxx, 4, 2, b"xuxx", false);
-parse_shape!(c06_t_parse_uint_r2_xxuu, 4, 2, b"xxuu", false);
-parse_shape!(c06_t_parse_uint_r2_xxux, 4, 2, b"xxux", false);
-parse_shape!(c06_t_parse_uint_r2_xxxu, 4, 2, b"xxxu", false);
-parse_shape!(c06_t_parse_uint_r2_xxxx, 4, 2, b"xxxx", false);
-parse_shape!(c06_t_parse_int_r2_muuu, 4, 2, b"muuu", true);
-parse_shape!(c06_t_parse_int_r2_muux, 4, 2, b"muux", true);
-parse_shape!(c06_t_parse_int_r2_muxu, 4, 2, b"muxu", true);
-parse_shape!(c06_t_parse_int_r2_muxx, 4, 2, b"muxx", true);
-parse_shape!(c06_t_parse_int_r2_mxuu, 4, 2, b"mxuu", true);
-parse_shape!(c06_t_parse_int_r2_mxux, 4, 2, b"mxux", true);
-parse_shape!(c06_t_parse_int_r2_mxxu, 4, 2, b"mxxu", true);
-parse_shape!(c06_t_parse_int_r2_mxxx, 4, 2, b"mxxx", true);
-parse_shape!(c06_t_parse_uint_r36_puuu, 4, 36, b"puuu", false);
-parse_shape!(c06_t_parse_uint_r36_puux, 4, 36, b"puux", false);
-parse_shape!(c06_t_parse_uint_r36_puxu, 4, 36, b"puxu", false);
-parse_shape!(c06_t_parse_uint_r36_puxx, 4, 36, b"puxx", false);
-parse_shape!(c06_t_parse_uint_r36_pxuu, 4, 36, b"pxuu", false);
-parse_shape!(c06_t_parse_uint_r36_pxux, 4, 36, b"pxux", false);
-parse_shape!(c06_t_parse_uint_r36_pxxu, 4, 36, b"pxxu", false);
-parse_shape!(c06_t_parse_uint_r36_pxxx, 4, 36, b"pxxx", false);
-parse_shape!(c06_t_parse_uint_r36_uuuu, 4, 36, b"uuuu", false);
-parse_shape!(c06_t_parse_uint_r36_uuux, 4, 36, b"uuux", false);
-parse_shape!(c06_t_parse_uint_r36_uuxu, 4, 36, b"uuxu", false);
-parse_shape!(c06_t_parse_uint_r36_uuxx, 4, 36, b"uuxx", false);
-parse_shape!(c06_t_parse_uint_r36_uxuu, 4, 36, b"uxuu", false);
-parse_shape!(c06_t_parse_uint_r36_uxux, 4, 36, b"uxux", false);
-parse_shape!(c06_t_parse_uint_r36_uxxu, 4, 36, b"uxxu", false);
-parse_shape!(c06_t_parse_uint_r36_uxxx, 4, 36, b"uxxx", false);
-parse_shape!(c06_t_parse_uint_r36_xuuu, 4, 36, b"xuuu", false);
-parse_shape!(c06_t_parse_uint_r36_xuux, 4, 36, b"xuux", false);
-parse_shape!(c06_t_parse_uint_r36_xuxu, 4, 36, b"xuxu", false);
-parse_shape!(c06_t_parse_uint_r36_xuxx, 4, 36, b"xuxx", false);
-parse_shape!(c06_t_parse_uint_r36_xxuu, 4, 36, b"xxuu", false);
-parse_shape!(c06_t_parse_uint_r36_xxux, 4, 36, b"xxux", false);
-parse_shape!(c06_t_parse_uint_r36_xxxu, 4, 36, b"xxxu", false);
-parse_shape!(c06_t_parse_uint_r36_xxxx, 4, 36, b"xxxx", false);
-parse_shape!(c06_t_parse_int_r36_muuu, 4, 36, b"muuu", true);
-parse_shape!(c06_t_parse_int_r36_muux, 4, 36, b"muux", true);
-parse_shape!(c06_t_parse_int_r36_muxu, 4, 36, b"muxu", true);
-parse_shape!(c06_t_parse_int_r36_muxx, 4, 36, b"muxx", true);
-parse_shape!(c06_t_parse_int_r36_mxuu, 4, 36, b"mxuu", true);
-parse_shape!(c06_t_parse_int_r36_mxux, 4, 36, b"mxux", true);
-parse_shape!(c06_t_parse_int_r36_mxxu, 4, 36, b"mxxu", true);
-parse_shape!(c06_t_parse_int_r36_mxxx, 4, 36, b"mxxx", true);
-parse_bytes_shape!(c06_q_parse_bytes_1, 1);
-parse_bytes_shape!(c06_q_parse_bytes_2, 2);
-parse_bytes_shape!(c06_t_parse_bytes_3, 3);
+parse_shape!(c06_t_parse_uint_r10_x, 1, 10, b"x", false);
+parse_shape!(c06_t_parse_int_r10_x, 1, 10, b"x", true);
+parse_shape!(c06_t_parse_uint_r10_px, 2, 10, b"px", false);
+parse_shape!(c06_t_parse_int_r10_px, 2, 10, b"px", true);
+parse_shape!(c06_t_parse_int_r10_mx, 2, 10, b"mx", true);
+parse_bytes_shape!(c06_t_parse_bytes_1, 1);
 from_radix_shape!(c06_t_from_radix_n0_r3, 0, 3);
 from_radix_shape!(c06_q_from_radix_n0_r10, 0, 10);
 from_radix_shape!(c06_t_from_radix_n0_r190, 0, 190);
@@ -604,9 +254,24 @@ from_radix_shape!(c06_t_from_radix_n4_r2, 4, 2);
 from_radix_shape!(c06_t_from_radix_n4_r16, 4, 16);
 from_radix_shape!(c06_t_from_radix_n4_r8, 4, 8);
 from_radix_shape!(c06_t_from_radix_n4_r128, 4, 128);
-radix_range_mp!(c06_q_radix_range_0_mp, 0);
-radix_range_mp!(c06_q_radix_range_1_mp, 1);
-radix_range_mp!(c06_q_radix_range_2_mp, 2);
-radix_range_mp!(c06_q_radix_range_3_mp, 3);
-radix_range_mp!(c06_q_radix_range_4_mp, 4);
+radix_range_mp!(c06_t_radix_range_0_r0_mp, 0, 0);
+radix_range_mp!(c06_q_radix_range_0_r1_mp, 0, 1);
+radix_range_mp!(c06_q_radix_range_0_r37_mp, 0, 37);
+radix_range_mp!(c06_t_radix_range_0_r4294967295_mp, 0, 4294967295);
+radix_range_mp!(c06_t_radix_range_1_r0_mp, 1, 0);
+radix_range_mp!(c06_q_radix_range_1_r1_mp, 1, 1);
+radix_range_mp!(c06_q_radix_range_1_r257_mp, 1, 257);
+radix_range_mp!(c06_t_radix_range_1_r4294967295_mp, 1, 4294967295);
+radix_range_mp!(c06_t_radix_range_2_r0_mp, 2, 0);
+radix_range_mp!(c06_q_radix_range_2_r1_mp, 2, 1);
+radix_range_mp!(c06_q_radix_range_2_r257_mp, 2, 257);
+radix_range_mp!(c06_t_radix_range_2_r4294967295_mp, 2, 4294967295);
+radix_range_mp!(c06_t_radix_range_3_r0_mp, 3, 0);
+radix_range_mp!(c06_q_radix_range_3_r1_mp, 3, 1);
+radix_range_mp!(c06_q_radix_range_3_r37_mp, 3, 37);
+radix_range_mp!(c06_t_radix_range_3_r4294967295_mp, 3, 4294967295);
+radix_range_mp!(c06_t_radix_range_4_r0_mp, 4, 0);
+radix_range_mp!(c06_q_radix_range_4_r1_mp, 4, 1);
+radix_range_mp!(c06_q_radix_range_4_r37_mp, 4, 37);
+radix_range_mp!(c06_t_radix_range_4_r4294967295_mp, 4, 4294967295);
 // END GENERATED
